@@ -1,4 +1,61 @@
-From Hop Require Import Base Replay.
-Theorem c14_placeholder : check win_init 0 = true.
-Proof. reflexivity. Qed.
-Print Assumptions c14_placeholder.
+(* C14 — the replay filter accepts each fresh counter once and nothing stale.
+   Model: Model/Replay.v (transcription of transport/replay.go with explicit uint64 wrap).
+   Only statements here; proofs are in Proofs/ReplayProofs.v. *)
+From Hop Require Import Base Replay ReplayProofs.
+Open Scope N_scope.
+
+(* lim = 2^63, the property's bound on counters *)
+
+(* Full statement, for EVERY finite sequence ms of Mark calls (any length, any jumps, any order,
+   stronger than the transport's own usage) and every probe c:
+   Check says yes  iff  c was never marked and is not more than 448 below the highest marked. *)
+Theorem c14_check_iff_fresh : forall ms c,
+  Forall (fun x => x < lim) (c :: ms) ->
+  check (fold_left mark ms win_init) c = fresh_b ms c.
+Proof. exact check_fresh. Qed.
+Print Assumptions c14_check_iff_fresh.
+
+(* fresh_b is the property's sentence *)
+Theorem c14_fresh_means : forall A c,
+  fresh_b A c = true <-> (~ In c A /\ max0 A <= c + 448).
+Proof. exact fresh_b_iff. Qed.
+Print Assumptions c14_fresh_means.
+
+(* max0 is "the highest counter accepted so far" *)
+Theorem c14_max0_is_highest : forall A, A <> [] ->
+  In (max0 A) A /\ forall x, In x A -> x <= max0 A.
+Proof. intros A H. split; [now apply max0_in|intros x; apply max0_ge]. Qed.
+Print Assumptions c14_max0_is_highest.
+
+(* The transport's usage (readPacketLocked): Check, Mark only when accepted.  For every history of
+   presented counters, the accept/reject decisions are exactly those of the set-based specification. *)
+Theorem c14_accept_history : forall cs,
+  Forall (fun x => x < lim) cs ->
+  run_accept win_init cs = spec_run [] cs.
+Proof. exact run_accept_spec. Qed.
+Print Assumptions c14_accept_history.
+
+(* arbitrary interleavings of Mark and Check calls *)
+Theorem c14_ops_history : forall ops, ops_lt ops -> run_ops win_init ops = spec_ops [] ops.
+Proof. exact run_ops_spec. Qed.
+Print Assumptions c14_ops_history.
+
+(* no duplicate is ever let through, for arbitrarily long histories *)
+Theorem c14_accepted_once : forall cs,
+  Forall (fun x => x < lim) cs ->
+  NoDup (accepted_counters cs (run_accept win_init cs)).
+Proof. exact accepted_once. Qed.
+Print Assumptions c14_accepted_once.
+
+(* the uint64 wrap written into the model is unreachable under the property's bound *)
+Theorem c14_no_wrap : forall seq, seq < lim -> u64_add seq window_size = seq + 448.
+Proof. exact no_wrap. Qed.
+Print Assumptions c14_no_wrap.
+
+(* non-vacuity: a history straddling block boundaries, with a jump of more than the ring size and
+   revisits of both window edges, meets the premises and exercises every branch *)
+Example c14_history_nonvacuous :
+  let cs := [5; 64; 63; 700; 252; 251; 700; 1300; 852; 851; 1300; 9223372036854775807] in
+  Forall (fun x => x < lim) cs /\
+  run_accept win_init cs = [true; true; true; true; true; false; false; true; true; false; false; true].
+Proof. split; [repeat constructor|vm_compute; reflexivity]. Qed.
